@@ -427,6 +427,7 @@ class Env:
         self.count_assumption: Optional[Callable[[Lin], None]] = None  # called when a loop count is assumed >= 0
         self.comp_hooks: list[Callable[["Env", ast.AST], Any]] = []  # comprehension models
         self.assume_hooks: list[Callable[["Env", ast.Call, bool], bool]] = []  # branch conditions that are helper calls
+        self.bool_hooks: list[Callable[["Env", ast.BoolOp], Any]] = []  # value semantics of 'a or b' over abstract objects
 
     def copy(self) -> "Env":
         e = Env(self.facts.copy(), self.int_attrs)
@@ -436,6 +437,7 @@ class Env:
         e.count_assumption = self.count_assumption
         e.comp_hooks = list(self.comp_hooks)
         e.assume_hooks = list(self.assume_hooks)
+        e.bool_hooks = list(self.bool_hooks)
         return e
 
     def symbol(self, path: str, integer: bool = True) -> Lin:
@@ -612,6 +614,11 @@ def evaluate(env: Env, e: ast.AST) -> Any:
                 return env.vars[p]
             return env.symbol(p)
         return Opaque("subscript")
+    if isinstance(e, ast.BoolOp):
+        for h in env.bool_hooks:
+            r = h(env, e)
+            if r is not None:
+                return r
     if isinstance(e, (ast.Compare, ast.BoolOp)):
         return truth(env, e)
     if isinstance(e, (ast.ListComp, ast.GeneratorExp)):
